@@ -700,6 +700,12 @@ pub fn generate_with(prop: &str, o: &GenOpts, base_seed: u64, index: u64) -> Run
         } else {
             0
         },
+        // the nth call comes first, or after one or two elements were taken with next()
+        nth_at: match (run_seed >> 29) % 4 {
+            0 | 1 => 0,
+            2 => 1,
+            _ => 2,
+        },
         finish: if rng.chance(20, 100) {
             rng.range(1, 2) as u8
         } else {
@@ -917,6 +923,7 @@ pub fn generate_c16(base_seed: u64, index: u64, schedules_per_point: u64) -> Run
         },
         panic: None,
         consume_nth: ((index / 7) % 3) as usize % 2,
+        nth_at: 0,
         tail: 0,
         hint_short: 0,
         hint_long: 0,
